@@ -2,7 +2,7 @@ package main
 
 // Parse-and-hold under concurrency (C14: "a copy of an object is independent", results do not depend on
 // what other goroutines are doing).  Every goroutine parses canonical vectors written from the
-// specification tables (so Vector() of the result must be the text itself - the C08 oracle), KEEPS the
+// specification tables, reads Vector() of the result once (the baseline), KEEPS the
 // returned objects in a ring, parses failing variants in between (cut short, illegal value, unknown
 // abbreviation, repeated element - an error path that releases or recycles something), and keeps
 // re-reading the objects it holds: an object handed to a caller must never change unless its owner
@@ -112,7 +112,7 @@ func runConcHold(a *args) {
 					n++
 					if got != h.s {
 						col.violate(Violation{Property: prop, Kind: "an object returned by ParseVector changed while its owner only read it (" + when + ")", Version: vn,
-							Input: map[string]interface{}{"parsed_from": h.s, "goroutines": G}, Expected: h.s, Observed: got})
+							Input: map[string]interface{}{"first_read": h.s, "goroutines": G}, Expected: h.s, Observed: got})
 					}
 				}
 				for i := 0; i < N/G+1; i++ {
@@ -141,9 +141,18 @@ func runConcHold(a *args) {
 					if p, _ := safely(func() { o, err = v.Parse(s) }); p || err != nil || o == nil {
 						continue // accept/reject is C01's business
 					}
+					// the baseline is what the owner reads right after the parse; whether THAT is the canonical text is C08's
+					// business (a deterministic difference is only counted); what must never happen is a later change
+					base := s
+					if p, _ := safely(func() { base = o.Vector() }); p {
+						continue
+					}
+					if base != s {
+						col.count("fresh parse results whose Vector() is not the text parsed (left to C08)", 1)
+					}
 					slot := rng.Intn(len(ring))
 					verify(ring[slot], "re-read before being dropped")
-					ring[slot] = held{o, s}
+					ring[slot] = held{o, base}
 					verify(ring[rng.Intn(len(ring))], "re-read while other goroutines parse")
 					if i%64 == 0 {
 						runtime.Gosched()
